@@ -346,11 +346,52 @@ def _value_class(arg):
     return ["int", sign, band, dist]
 
 
+def _contracts_via_metafile(log, utils, orig_n, orig_g):
+    import tempfile
+    torrent = drive.mod("torrent")
+    d = tempfile.mkdtemp(prefix="c12-", dir=os.getcwd())
+    small = os.path.join(d, "small.bin")
+    with open(small, "wb") as fd:
+        fd.write(b"x" * 100)
+    sparse = os.path.join(d, "sparse.bin")
+    with open(sparse, "wb"):
+        pass
+
+    def normalize_piece_length(piece_length):
+        try:
+            r = orig_n(piece_length) if orig_n is not None else torrent.MetaFile(path=small, piece_length=piece_length).piece_length
+        except BaseException as exc:  # noqa
+            log.append(("normalize", piece_length, ("exc", type(exc).__name__)))
+            raise
+        log.append(("normalize", piece_length, ("ret", r)))
+        return r
+
+    def get_piece_length(size):
+        if orig_g is not None:
+            r = orig_g(size)
+        else:
+            os.truncate(sparse, size)
+            r = torrent.MetaFile(path=sparse).piece_length
+        log.append(("auto", size, ("ret", r)))
+        return r
+
+    # installed under the documented names so that the batches below can call them; the creation routes of a
+    # refactored tree do not call through these attributes, their results are judged from the metafiles they write
+    utils.normalize_piece_length = normalize_piece_length
+    utils.get_piece_length = get_piece_length
+    return env.MISSING if orig_n is None else orig_n, env.MISSING if orig_g is None else orig_g
+
+
 def _install_contracts(log):
     """Runtime contracts on the two documented pure functions, installed on the
     module attribute the creation path calls through."""
     utils = drive.mod("utils")
-    orig_n, orig_g = utils.normalize_piece_length, utils.get_piece_length
+    orig_n, orig_g = getattr(utils, "normalize_piece_length", None), getattr(utils, "get_piece_length", None)
+    if orig_n is None or orig_g is None:
+        # one of the two helpers no longer exists under its name (a refactoring): observe the same decisions through
+        # the public base class of the creators instead - MetaFile(path, piece_length) validates a given value and
+        # picks the automatic one from the payload size (a sparse file of that size) without hashing anything
+        return _contracts_via_metafile(log, utils, orig_n, orig_g)
 
     def normalize_piece_length(piece_length):
         try:
